@@ -153,7 +153,9 @@ __CPROVER_requires(!TS_SCHEDULED(task))
 /* scheduler-level callers: the task is out of every container when its function runs */
 __CPROVER_requires(g_fn_req_detached ==> TS_UNLINKED(task))
 __CPROVER_assigns(g_fl, TS_A_TASK_BUT_FN(task))
-__CPROVER_ensures(g_fn_calls == OLD(g_fn_calls) + 1 && g_fn_task == task && g_fn_arg == arg && g_fn_status == (int)status && g_st_bad == OLD(g_st_bad))
+__CPROVER_ensures(g_fn_calls == OLD(g_fn_calls) + 1 && g_fn_task == task && g_fn_arg == arg && g_fn_status == (int)status)
+/* running tally for callers that make many invocations: some invocation had another status than g_expect_status */
+__CPROVER_ensures(g_st_bad == (OLD(g_st_bad) || (int)status != g_expect_status))
 ;
 aws_task_fn *g_ts_keep_fn = ts_task_fn_contract; /* address taken: required by obeys_contract */
 
@@ -257,7 +259,6 @@ __CPROVER_requires(TS_IS_TASK(task) && TS_FN_OK(task))
 __CPROVER_requires(g_fn_req_detached ==> TS_UNLINKED(task))
 __CPROVER_assigns(TS_A_FN_LOG, TS_A_TASK_BUT_FN(task))
 __CPROVER_ensures(TS_RAN_ONCE(task, status))
-/* running tally for callers that make many calls: some call had another status than g_expect_status */
 __CPROVER_ensures(g_st_bad == (OLD(g_st_bad) || (int)status != g_expect_status))
 ;
 
@@ -531,6 +532,18 @@ uint64_t g_now;
  * unchanged): head.next is the front task's node, or the tail sentinel when the list is empty. */
 #define TS_HEADNEXT_OK(l, len, front_i) ((len) > 0 ? (l)->head.next == &g_tk[front_i].node : (l)->head.next == &(l)->tail)
 
+/* aws_task_run as seen by s_run_all in this unit: the contract of aws_task_run (proved in unit task_run) WITHOUT the clause
+ * about the function pointer - the loop frames of this unit name whole arena tasks, so pointer values stored in them are
+ * not tracked here (the scheduler never writes task->fn: frames of every other unit). */
+void ts_task_run_abs_contract(struct aws_task *task, enum aws_task_status status)
+__CPROVER_requires(TS_IS_TASK(task))
+__CPROVER_requires(g_fn_req_detached ==> TS_UNLINKED(task))
+__CPROVER_assigns(TS_A_FN_LOG, *task)
+__CPROVER_ensures(g_fn_calls == OLD(g_fn_calls) + 1 && g_fn_task == task && g_fn_status == (int)status)
+__CPROVER_ensures(g_st_bad == (OLD(g_st_bad) || (int)status != g_expect_status))
+;
+#define TS_A_ARENA_TASKS g_tk[0], g_tk[1], g_tk[2], g_tk[3]
+
 /* s_run_all (enforced under this name).  For a run at time `current_time` with status `status`:
  *  - the run-now FIFO is emptied into the batch before anything else;
  *  - timed tasks enter the batch only with time <= current_time, in non-decreasing time order (push_back preconditions);
@@ -539,7 +552,7 @@ uint64_t g_now;
  *  - the function of every batch task is invoked exactly once, with `status`, after the task was unlinked
  *    (aws_task_run's precondition); the batch is empty at the end; nothing else is invoked. */
 void ts_run_all_contract(struct aws_task_scheduler *scheduler, uint64_t current_time, enum aws_task_status status)
-__CPROVER_requires(scheduler == &g_sc && TS_SLOTS_OK && TS_ALL_FN_OK)
+__CPROVER_requires(scheduler == &g_sc && TS_SLOTS_OK)
 __CPROVER_requires(TS_ABS_OK && g_fn_req_detached)
 __CPROVER_requires(TS_HEADNEXT_OK(&g_sc.timed_list, g_tl_len, g_tl_front_i))
 __CPROVER_requires(g_now == current_time && g_expect_status == (int)status && !g_st_bad && !g_swapped && !g_moved_any)
@@ -547,7 +560,7 @@ __CPROVER_requires(g_asap_len > 0 ==> g_run_front_i < TSK && TS_HANDLE(&g_tk[g_r
                                        (g_q_size > 0 ==> g_run_front_i != g_q_top_i) && (g_tl_len > 0 ==> g_run_front_i != g_tl_front_i))
 __CPROVER_requires(g_asap_len < ((size_t)1 << 62) && g_tl_len < ((size_t)1 << 62) && g_q_size < ((size_t)1 << 62) && g_moved_timed == 0)
 __CPROVER_assigns(g_ab, g_sc.asap_list, g_sc.timed_list.head.next)
-__CPROVER_assigns(TS_A_FN_LOG, TS_A_ARENA_BUT_FN)
+__CPROVER_assigns(TS_A_FN_LOG, TS_A_ARENA_TASKS)
 __CPROVER_ensures(g_asap_len == 0 && g_run_len == 0 && g_swapped)
 __CPROVER_ensures(TS_HEADNEXT_OK(&g_sc.timed_list, g_tl_len, g_tl_front_i) && g_sc.asap_list.head.next == &g_sc.asap_list.tail)
 __CPROVER_ensures(g_tl_len == 0 || g_tk[g_tl_front_i].timestamp > current_time)
